@@ -13,6 +13,7 @@ DRIVER_SOURCES = {
 NOISE_NOTE = ("; odd-numbered shards run with a noise thread: a second thread that keeps decoding / reconstructing / querying through the "
               "instance and stripe under test and through its own instances of several backends, so that the oracles also see results that depend on what other threads do")
 TRUST = ["compiler sanitizers (ASan/UBSan) observe only executed paths",
+         "external plugins (libisal, libJerasure, libshss, libphazr) are verif-owned clean-room stand-ins: what is observed is liberasurecode's adapters and front end, not those products",
          "reference models in ref/ are validated against Python-generated KATs and in-the-wild golden headers (ref/selftest.c)"]
 
 
@@ -80,7 +81,7 @@ PROPS = {
                "non-trivial = every history / erasure set; distinct = history index/seed or (config, erasure set)",
                extra_runs=[{"name": "plain-oom", "flavour": "plain", "driver": "drv_api_ledger", "args": ["--mode", "oom"]}],
                require_stats=["rc_decode_0", "rc_decode_EINSUFFFRAGS", "rc_decode_EBADHEADER", "rc_reconstruct_0", "rc_reconstruct_EINSUFFFRAGS", "rc_reconstruct_EINVALIDPARAMS",
-                              "rc_create_EBACKENDINITERR", "rc_create_EBACKENDNOTAVAIL", "rc_create_EINVALIDPARAMS", "rc_create_EBACKENDNOTSUPP", "rc_encode_0", "rc_invalid_arg_call_EINVALIDPARAMS"]),
+                              "rc_create_EBACKENDINITERR", "rc_create_EINVALIDPARAMS", "rc_create_EBACKENDNOTSUPP", "rc_encode_0", "rc_invalid_arg_call_EINVALIDPARAMS"]),
     "C17": api("C17", "fault_enumeration",
                "fault injection at the plugin boundary (operation table of the backend descriptor swapped for counting stubs around create): for each backend and each of init/encode/decode/reconstruct/fragments_needed, EVERY call position of that operation in a scripted workload (create, 3 encodes, 6 decodes with data loss, 5 reconstructs, 4 fragments_needed, destroy) fails once, plus shuffled scripts with random fault positions; "
                "oracle: public rc<0, ledger delta 0 right after the failing call (heap and dlopen), registry unchanged for init, the next identical call succeeds byte-exactly, ledger back to baseline after destroy; ASan+LSan underneath; "
